@@ -719,12 +719,6 @@ theorem mapGroup_same_object_iff (inner : σ → List Item → Step σ Item) (s 
 
 /-! ## 4. `LaTeXToPDF`: unselected values pass as they are, in order, whenever the processes end -/
 
-/-- the consumed values among what was yielded -/
-def passedOf (es : List Emit) : List Item :=
-  es.filterMap (fun e => match e with
-    | .pass v => some v
-    | .prod _ => none)
-
 theorem passedOf_append (a b : List Emit) : passedOf (a ++ b) = passedOf a ++ passedOf b := by
   simp [passedOf, List.filterMap_append]
 
